@@ -13,6 +13,9 @@ use std::collections::{BTreeMap, BTreeSet};
 pub struct Case {
     pub t: TSpec,
     pub layout: u8,
+    /// run infeasible_elimination first: nodes then carry cached feasibility states (also Infeasible ones on kept
+    /// only-children), which the iterators must ignore
+    pub elim_first: bool,
 }
 
 fn r1(a: &[f64], b: f64) -> Aff {
@@ -33,7 +36,10 @@ pub fn cases(tier: Tier) -> Vec<Case> {
     };
     for (i, s) in g1.all().into_iter().enumerate() {
         if s.n_nodes() <= 5 || i % keep1 == 0 {
-            out.push(Case { t: s, layout: (i % 5) as u8 });
+            out.push(Case { t: s.clone(), layout: (i % 5) as u8, elim_first: false });
+            if i % 4 == 0 {
+                out.push(Case { t: s, layout: (i % 5) as u8, elim_first: true });
+            }
         }
     }
     // dim 2: concurrent (through the origin), parallel, coincident up to scaling
@@ -47,7 +53,10 @@ pub fn cases(tier: Tier) -> Vec<Case> {
     };
     for (i, s) in g2.all().into_iter().enumerate() {
         if s.n_nodes() <= 4 || i % keep2 == 0 {
-            out.push(Case { t: s, layout: (i % 5) as u8 });
+            out.push(Case { t: s.clone(), layout: (i % 5) as u8, elim_first: false });
+            if i % 4 == 0 {
+                out.push(Case { t: s, layout: (i % 5) as u8, elim_first: true });
+            }
         }
     }
     out
@@ -149,10 +158,13 @@ fn reference_stream(s: &Snap, skip: &BTreeSet<usize>) -> Vec<(usize, usize, usiz
 
 pub fn run_case(c: &Case) -> CaseOut {
     let mut out = CaseOut::default();
-    let tree: AffTree<2> = c.t.build_layout::<2>(c.layout);
+    let mut tree: AffTree<2> = c.t.build_layout::<2>(c.layout);
+    if c.elim_first && catch(|| tree.infeasible_elimination()).is_err() {
+        return out;
+    }
     let s = snap(&tree);
-    let rec = || json!({"tree": c.t.to_json(), "layout": c.layout, "arena": s.to_json()});
-    let total = c.t.is_total();
+    let rec = || json!({"tree": c.t.to_json(), "layout": c.layout, "infeasible_elimination_first": c.elim_first, "arena": s.to_json()});
+    let total = c.t.is_total() && !c.elim_first; // pruning may drop regions thinner than the LP tolerance
     // ---- (a) iterator stream and reported polytopes, with skips
     let order: Vec<usize> = reference_stream(&s, &BTreeSet::new()).iter().map(|x| x.0).collect();
     let mut plans: Vec<(BTreeSet<usize>, bool)> = vec![(BTreeSet::new(), false), ([BEFORE_FIRST].into_iter().collect(), false), ([BEFORE_FIRST].into_iter().collect(), true)];
@@ -212,6 +224,64 @@ pub fn run_case(c: &Case) -> CaseOut {
             }
         }
         Err(m) => out.violate(Violation::new(format!("PolyhedraGen panicked: {m}"), rec()).tag("kind", "panic")),
+    }
+    // PolyhedraGen::with_root from every other node: pre-order of that subtree; the reported conditions are those of
+    // the edges from the start node's parent down to the node (the library also reports the edge into the start node)
+    for &start in s.nodes.keys().filter(|i| **i != s.root) {
+        out.add("iterator_runs", 1);
+        let got = catch(|| {
+            let mut it = affinitree::pwl::iter::PolyhedraGen::with_root(&tree.tree, start);
+            let mut v = vec![];
+            let mut guard = 0;
+            while let Some((data, polys)) = it.next(&tree.tree) {
+                guard += 1;
+                if guard > 1000 {
+                    panic!("iterator does not terminate");
+                }
+                let mut rows: Rows = vec![];
+                for p in polys.iter() {
+                    for (r, bb) in arr2_to_q(&p.mat).into_iter().zip(arr1_to_q(&p.bias).into_iter()) {
+                        rows.push((r, bb));
+                    }
+                }
+                v.push((data.index, data.depth, data.n_remaining, rows));
+            }
+            v
+        });
+        match got {
+            Err(m) => {
+                out.violate(Violation::new(format!("PolyhedraGen::with_root({start}) panicked: {m}"), rec()).tag("kind", "panic").tag("skip", "with_root"));
+                return out;
+            }
+            Ok(got) => {
+                fn sub(s: &Snap, i: usize, d: usize, rem: usize, out: &mut Vec<(usize, usize, usize)>) {
+                    out.push((i, d, rem));
+                    let ks: Vec<usize> = s.nodes[&i].children.iter().flatten().cloned().collect();
+                    let n = ks.len();
+                    for (p, c) in ks.into_iter().enumerate() {
+                        sub(s, c, d + 1, n - 1 - p, out);
+                    }
+                }
+                let mut exp = vec![];
+                sub(&s, start, 0, 0, &mut exp);
+                let hdr: Vec<(usize, usize, usize)> = got.iter().map(|x| (x.0, x.1, x.2)).collect();
+                if hdr != exp {
+                    out.violate(Violation::new(format!("PolyhedraGen::with_root({start}) stream {:?}, expected {:?}", hdr, exp), rec()).tag("kind", "stream").tag("skip", "with_root"));
+                    return out;
+                }
+                let skip_rows = s.path_rows(s.nodes[&start].parent.unwrap()).map(|r| r.len()).unwrap_or(0);
+                for (idx, _, _, rows) in &got {
+                    let full = s.path_rows(*idx).unwrap();
+                    if *rows != full[skip_rows.min(full.len())..].to_vec() {
+                        let mut r = rec();
+                        r["node"] = json!(idx);
+                        r["start"] = json!(start);
+                        out.violate(Violation::new(format!("node {idx}: conditions reported by PolyhedraGen::with_root({start}) are not those of the edges from the start node's parent down to the node"), r).tag("kind", "polytope").tag("skip", "with_root"));
+                        return out;
+                    }
+                }
+            }
+        }
     }
     // path_to_node of the real tree against the snapshot
     for i in s.nodes.keys() {
